@@ -2656,6 +2656,26 @@ impl<'a, R: FileManager> FrontendCtx<'a, R> {
                 vs.push((name.clone(), v.required()));
             }
         }
+        // what the module passes on with `export * from`: its own exports shadow them, an earlier
+        // `export *` shadows a later one, and a module that is already being walked adds nothing
+        for passed_on in module.symbol_exports.extends.iter() {
+            let whole_file = ModuleItemAddress {
+                file: passed_on.clone(),
+                name: "*".to_string(),
+                visibility: Visibility::Export,
+            };
+            if self.typing_values.contains(&whole_file) {
+                continue;
+            }
+            let inner = self.extract_whole_file_as_value(passed_on, anchor)?;
+            if let RuntypeKind::Object { vs: inner_vs, .. } = inner.kind {
+                for (name, v) in inner_vs {
+                    if name != "default" && !vs.iter().any(|(n, _)| *n == name) {
+                        vs.push((name, v));
+                    }
+                }
+            }
+        }
 
         Ok(Runtype::object(vs))
     }
